@@ -124,6 +124,7 @@ type Runner struct {
 	V     []Violation
 	Stats *RunStats
 	stop  bool
+	OnPrimary func(i int, req ExecReq, t *Transcript) // observer of the primary's executions (corpus generation)
 }
 
 func NewRunner(p *Plan, opts RunOpts) *Runner {
@@ -355,6 +356,9 @@ func (r *Runner) step(i int) {
 	prim := r.Nodes[0]
 	t0 := prim.Exec(req, true)
 	prim.lastT, prim.lastStep = t0, i
+	if r.OnPrimary != nil {
+		r.OnPrimary(i, req, t0)
+	}
 	r.account(prim, t0)
 	r.invariants(i, prim, s, t0, false)
 	tent := map[string]uint64{}
